@@ -74,6 +74,18 @@ def facts(f):
     """-> (written byte ranges [(lo, hi, loc)], copies [(dst, src, len, loc)], unknown writes [loc])"""
     al = _aliases(f)
     wr, cp, unk = [], [], []
+    # an alias that moves (p++, p += n, p = ...) no longer names a fixed place: the generator is left undecided
+    for _, _, ev in f.events():
+        for key in ('e', 'lhs', 'rhs', 'val'):
+            for n in cf.walk(ev.get(key) or {}):
+                if n.get('k') == 'un' and n.get('op') in ('++', '--'):
+                    x = cf.strip_casts(n['e'])
+                    if isinstance(x, dict) and x.get('k') == 'ref' and x['n'] in al:
+                        unk.append(ev['loc'])
+        if ev['k'] == 'assign':
+            l = cf.strip_casts(ev['lhs'])
+            if isinstance(l, dict) and l.get('k') == 'ref' and l['n'] in al:
+                unk.append(ev['loc'])
     for _, _, ev in f.events(('assign', 'call')):
         if ev['k'] == 'assign':
             l = cf.strip_casts(ev['lhs'])
